@@ -1,4 +1,5 @@
 import Chewing.Model.Basic
+import Chewing.Model.Syllable
 /-!
 Model of `validate_index` of `src/dictionary/trie.rs` (the structural check `Trie::new` /
 `TrieOpenOptions::read_from` runs on the decoded index before a `Trie` is returned — the repair of
@@ -13,6 +14,7 @@ than the root is a node iff its syllable field is non-zero.  The Rust loop
 let mut next = 1;
 for i in 0..count {
     if i == 0 || syllable(i) != 0 {
+        if i != 0 && Syllable::try_from(syllable(i)).is_err() { return Err }      // since the repair of C13's F47
         if begin < next || begin <= i || end > count { return Err }
         for child in begin + 1..end { if syllable(child) == 0 { return Err } }
         next = end;
@@ -20,7 +22,9 @@ for i in 0..count {
 }
 ```
 
-is `scan` (the arithmetic is done in `u64`: `begin + len` cannot overflow).
+is `scan` (the arithmetic is done in `u64`: `begin + len` cannot overflow) together with `sylsOk`: the syllable
+check of a node record reads nothing but that record and does not touch `next`, and nothing in the loop can panic,
+so "no record fails a check" is the conjunction of the structural scan and the per-record syllable check.
 -/
 namespace Chewing.TrieValidate
 
@@ -45,7 +49,11 @@ def scan (recs : List Rec3) (dataLen : Nat) : List Rec3 → Nat → Nat → Bool
     else if dataLen < a + b then false
     else scan recs dataLen rest (i + 1) next
 
+/-- the syllable check of the outer loop: the syllable field of every node record other than the root is a value
+    `Syllable::try_from` accepts (`Chewing.validCode`; leaf records have the field 0) -/
+def sylsOk (recs : List Rec3) : Bool := (recs.drop 1).all fun r => r.2.2 == 0 || validCode r.2.2
+
 /-- `validate_index(index, data_len).is_ok()` over the complete records of the index -/
-def validate (recs : List Rec3) (dataLen : Nat) : Bool := scan recs dataLen recs 0 1
+def validate (recs : List Rec3) (dataLen : Nat) : Bool := scan recs dataLen recs 0 1 && sylsOk recs
 
 end Chewing.TrieValidate
